@@ -21,7 +21,8 @@ import (
 type opC19 struct {
 	Kind   string // set, unset, clear, list, info, info-dir, info-file, resolve
 	Name   string
-	File   int // index into c19Files; len(c19Files) = a file that does not exist
+	File   int  // index into c19Files; len(c19Files) = a file that does not exist
+	Rel    bool // pass the target as a path relative to the working directory
 	Force  bool
 	Create bool
 	ViaCLI bool // run through klog.Run with real flag parsing
@@ -31,7 +32,7 @@ type caseC19 struct {
 	Ops []opC19
 }
 
-var c19Files = []string{"a.klg", "with space.klg", "quo\"te.klg", "ünï çödé.klg", "it's.klg", "semi;colon&amp.klg", "back\\slash.klg", "日本語.klg", "tab\there.klg", "@at.klg"}
+var c19Files = []string{"2023/times.klg", "2024/times.klg", "a.klg", "with space.klg", "quo\"te.klg", "ünï çödé.klg", "it's.klg", "semi;colon&amp.klg", "back\\slash.klg", "日本語.klg", "tab\there.klg", "@at.klg"}
 var c19Names = []string{"work", "@work", "Work", "ünï", "a b", "q\"uote", "it's", "back\\slash", "<&>", " ", "", "default", "@default", "x@y", "名前", "tab\tname", "@", "new\nline", "emoji🙂", "{json}", "a,b", "@日本"}
 
 func c19NameOf(s string) string {
@@ -61,6 +62,7 @@ func genC19(t *rapid.T, _ *evid.Rec) caseC19 {
 			op.Name = pickName()
 			used = append(used, op.Name)
 			op.File = rapid.IntRange(0, len(c19Files)-1).Draw(t, "file")
+			op.Rel = rapid.IntRange(0, 2).Draw(t, "relativePath") == 0
 			switch rapid.IntRange(0, 9).Draw(t, "setMode") {
 			case 0:
 				op.File = len(c19Files) // missing
@@ -123,9 +125,18 @@ func checkC19(c caseC19) (Outcome, error) {
 	h := newHarness(goTime(model.DaysFromCivil(2024, 5, 5), 600), "")
 	defer h.Close()
 	os.MkdirAll(h.Path("files"), 0o755)
+	// relative target paths are resolved against the working directory (process-global; the
+	// checks of one process run sequentially)
+	if wd, err := os.Getwd(); err == nil {
+		defer os.Chdir(wd)
+	}
+	if err := os.Chdir(h.Path("files")); err != nil {
+		return out, fmt.Errorf("harness: %v", err)
+	}
 	paths := make([]string, len(c19Files)+1)
 	for i, f := range c19Files {
 		paths[i] = filepath.Join(h.dir, "files", f)
+		os.MkdirAll(filepath.Dir(paths[i]), 0o755)
 		os.WriteFile(paths[i], []byte(fmt.Sprintf("2020-01-01\n\t%dh\n", i+1)), 0o644)
 	}
 	missingCounter := 0
@@ -144,6 +155,12 @@ func checkC19(c caseC19) (Outcome, error) {
 			}
 		}
 		name := c19NameOf(op.Name)
+		fileArg := file
+		if op.Kind == "set" && op.Rel {
+			if rel, err := filepath.Rel(h.Path("files"), file); err == nil {
+				fileArg = rel
+			}
+		}
 		dbBefore, _ := os.ReadFile(dbPath)
 		history += fmt.Sprintf("\n  [%d] %s name=%q file=%q force=%v create=%v cli=%v", oi, op.Kind, op.Name, filepath.Base(file), op.Force, op.Create, op.ViaCLI)
 		fail := func(format string, a ...any) (Outcome, error) {
@@ -165,7 +182,7 @@ func checkC19(c caseC19) (Outcome, error) {
 				if op.Create {
 					args = append(args, "--create")
 				}
-				args = append(args, file)
+				args = append(args, fileArg)
 				if op.Name != "" {
 					args = append(args, op.Name)
 				}
@@ -202,7 +219,7 @@ func checkC19(c caseC19) (Outcome, error) {
 		} else {
 			switch op.Kind {
 			case "set":
-				outText, err = h.RunE(&cli.BookmarksSet{File: file, Name: op.Name, Create: op.Create, Force: op.Force})
+				outText, err = h.RunE(&cli.BookmarksSet{File: fileArg, Name: op.Name, Create: op.Create, Force: op.Force})
 			case "unset":
 				outText, err = h.RunE(&cli.BookmarksUnset{Name: op.Name})
 			case "clear":
